@@ -2,7 +2,10 @@
 import SquidModel.Properties.C33
 #print axioms SquidModel.C33.epilogue_is_modelled
 #print axioms SquidModel.C33.client_controlled_macros_quoted
+#print axioms SquidModel.C33.macro_buffer_is_local
+#print axioms SquidModel.C33.no_raw_client_markup_in_page
+#print axioms SquidModel.C33.client_text_is_well_quoted
 #print axioms SquidModel.C33.no_raw_client_markup_in_page_partial
 #print axioms SquidModel.C33.client_text_is_well_quoted_partial
 #print axioms SquidModel.C33.skeleton_independent_of_client_bytes
-#print axioms SquidModel.C33.no_raw_client_markup_in_page_counterexample
+#print axioms SquidModel.C33.prefix_static_buffer_counterexample
